@@ -9,6 +9,7 @@ schedules the others.  The interpreter is therefore written in direct style.
 from __future__ import annotations
 
 import ast
+import os
 import builtins as _builtins
 import enum
 import sys
@@ -305,6 +306,7 @@ class Path:
         if hit is not None:
             return hit[0]
         subs = {}
+        nonneg_skip = set()
         seen = set()
         stack = [f]
         has_seq = False
@@ -323,6 +325,12 @@ class Path:
                     subs[i] = (t, z3.Int(f'len!{a.get_id()}'))
                     self.explorer.keep.append(a)
                     continue
+                if t.decl().kind() == z3.Z3_OP_SEQ_NTH and t.sort().kind() == z3.Z3_INT_SORT:
+                    # an element of an integer sequence: an opaque integer for the arithmetic abstraction
+                    subs[i] = (t, z3.Int(f'nth!{i}'))
+                    self.explorer.keep.append(t)
+                    nonneg_skip.add(i)
+                    continue
                 if t.sort().kind() == z3.Z3_SEQ_SORT or t.sort().kind() == z3.Z3_ARRAY_SORT:
                     has_seq = True
                     continue
@@ -332,7 +340,7 @@ class Path:
         else:
             g = z3.substitute(f, *subs.values()) if subs else f
             if subs:
-                g = z3.And(g, *[v >= 0 for (_, v) in subs.values()])
+                g = z3.And(g, *[v >= 0 for k_, (_, v) in subs.items() if k_ not in nonneg_skip])
         cache[key] = (g, f)
         return g
 
@@ -394,6 +402,10 @@ class Path:
         ca = self._abstract(c)
         if ca is not None and self._abs_query(z3.Not(ca)) == z3.unsat:
             r = True
+        elif os.environ.get('PYVC_PROVES_ARITH_ONLY', '1') != '0' and any(self._has_quantifier(p) for p in self.pc):
+            # an arithmetic goal that the arithmetic part of the path condition does not entail: the sequence solver
+            # rarely adds anything here and, with quantified facts around, does not honour its time limit (seconds per query)
+            r = False
         else:
             s = z3.Solver()
             s.set('timeout', 1000)
